@@ -341,4 +341,387 @@ theorem mp_stepOp_skip (s : DsStep.S) (op : Op) (hop : ∃ x, op = .mpFree x ∨
   · simp only [mpOpOf, Option.map_eq_none_iff] at he
     simp only [stepOp, he]
 
+/-! ## what every container function leaves alone in the oracle -/
+
+/-- same decision function, request counter and refusal counter not decreased -/
+def Ext (m m' : Mem) : Prop := m'.f = m.f ∧ m.n ≤ m'.n ∧ m.refusals ≤ m'.refusals
+
+/-- the harness' oracle: no request above `cap` is ever granted -/
+def Capped (m : Mem) : Prop := ∀ i sz, m.f i sz = true → sz ≤ cap
+
+theorem Ext.refl (m : Mem) : Ext m m := ⟨rfl, Nat.le_refl _, Nat.le_refl _⟩
+theorem Ext.trans {a b c : Mem} (h1 : Ext a b) (h2 : Ext b c) : Ext a c :=
+  ⟨h2.1.trans h1.1, Nat.le_trans h1.2.1 h2.2.1, Nat.le_trans h1.2.2 h2.2.2⟩
+theorem Capped.ext {m m' : Mem} (h : Capped m) (e : Ext m m') : Capped m' := by
+  intro i sz; rw [e.1]; exact h i sz
+
+theorem ext_malloc (m : Mem) (sz : Nat) : Ext m (m.malloc sz).2 := by
+  refine ⟨rfl, by simp [Mem.malloc], ?_⟩
+  simp only [Mem.malloc]; split <;> omega
+theorem ext_realloc (m : Mem) (w : Bool) (sz : Nat) : Ext m (m.realloc w sz).2 := by
+  refine ⟨rfl, by simp [Mem.realloc], ?_⟩
+  simp only [Mem.realloc]; split <;> omega
+theorem ext_free (m : Mem) (b : Bool) : Ext m (m.free b) := by
+  cases b <;> exact ⟨rfl, Nat.le_refl _, Nat.le_refl _⟩
+theorem malloc_cap {m : Mem} {sz : Nat} (hc : Capped m) (h : (m.malloc sz).1 = true) : sz ≤ cap := hc _ _ h
+theorem realloc_cap {m : Mem} {w : Bool} {sz : Nat} (hc : Capped m) (h : (m.realloc w sz).1 = true) : sz ≤ cap := hc _ _ h
+
+/-- frame of a function that takes the array `a` under `m` to `a'` under `m'` -/
+def FrameA (a : EArray.EA) (m : Mem) (a' : EArray.EA) (m' : Mem) : Prop :=
+  Ext m m' ∧ (Capped m → a.alloc ≤ cap → a'.alloc ≤ cap)
+
+theorem resize_frame (a : EArray.EA) (n : Nat) (m : Mem) :
+    FrameA a m (EArray.resize a n m).2.1 (EArray.resize a n m).2.2 := by
+  unfold EArray.resize
+  simp only
+  by_cases h0 : EArray.wantAlloc a.alloc n = 0
+  · rw [if_pos h0]; exact ⟨ext_free _ _, fun _ _ => Nat.zero_le _⟩
+  · by_cases h1 : EArray.wantAlloc a.alloc n ≠ a.alloc
+    · rw [if_neg h0, if_pos h1]
+      cases hr : (m.realloc (a.alloc == 0) (EArray.wantAlloc a.alloc n)).1
+      · rw [pair_eta _ hr]; exact ⟨ext_realloc _ _ _, fun _ h => h⟩
+      · rw [pair_eta _ hr]; exact ⟨ext_realloc _ _ _, fun hc _ => realloc_cap hc hr⟩
+    · rw [if_neg h0, if_neg h1]; exact ⟨Ext.refl _, fun _ h => h⟩
+
+theorem resizeRec_frame (a : EArray.EA) (n : Nat) (r : RecLen) (m : Mem) :
+    FrameA a m (EArray.resizeRec a n r m).2.1 (EArray.resizeRec a n r m).2.2 := by
+  unfold EArray.resizeRec
+  split
+  · exact ⟨Ext.refl _, fun _ h => h⟩
+  · exact resize_frame _ _ _
+
+theorem append_frame (a : EArray.EA) (data : List UInt8) (n : Nat) (r : RecLen) (m : Mem) :
+    FrameA a m (EArray.append a data n r m).2.1 (EArray.append a data n r m).2.2 := by
+  have hf := resize_frame a ((a.size + (n * r.val) % EArray.SZ) % EArray.SZ) m
+  unfold EArray.append
+  simp only
+  split
+  · exact ⟨Ext.refl _, fun _ h => h⟩
+  · rcases hres : EArray.resize a ((a.size + (n * r.val) % EArray.SZ) % EArray.SZ) m with ⟨ok, a', m'⟩
+    rw [hres] at hf
+    cases ok
+    · exact hf
+    · simp only
+      split
+      · split
+        · exact hf
+        · split <;> exact hf
+      · exact hf
+
+theorem shrink_frame (a : EArray.EA) (n : Nat) (r : RecLen) (m : Mem) :
+    FrameA a m (EArray.shrink a n r m).1 (EArray.shrink a n r m).2 := by
+  unfold EArray.shrink
+  simp only
+  generalize (if n > EArray.SIZE_MAX / r.val ∨ (n * r.val) % EArray.SZ > a.size then 0
+      else a.size - (n * r.val) % EArray.SZ) = ns
+  have hf := resize_frame a ns m
+  rcases hres : EArray.resize a ns m with ⟨ok, a', m'⟩
+  rw [hres] at hf
+  cases ok <;> exact hf
+
+theorem truncate_frame (a : EArray.EA) (m : Mem) :
+    FrameA a m (EArray.truncate a m).2.1 (EArray.truncate a m).2.2 := by
+  unfold EArray.truncate
+  split
+  · exact ⟨ext_free _ _, fun _ _ => Nat.zero_le _⟩
+  · split
+    · cases hr : (m.realloc false a.size).1
+      · rw [pair_eta _ hr]; exact ⟨ext_realloc _ _ _, fun _ h => h⟩
+      · rw [pair_eta _ hr]; exact ⟨ext_realloc _ _ _, fun hc _ => realloc_cap hc hr⟩
+    · exact ⟨Ext.refl _, fun _ h => h⟩
+
+theorem exportdup_ext (a : EArray.EA) (r : RecLen) (m : Mem) : Ext m (EArray.exportdup a r m).2.2 := by
+  unfold EArray.exportdup
+  cases hr : (m.malloc a.size).1
+  · rw [pair_eta _ hr]; exact ext_malloc _ _
+  · rw [pair_eta _ hr]; simp only; split <;> exact ext_malloc _ _
+
+theorem exportBuf_frame (a : EArray.EA) (r : RecLen) (m : Mem) :
+    FrameA a m (EArray.exportBuf a r m).2.1 (EArray.exportBuf a r m).2.2 := by
+  have hf := truncate_frame a m
+  unfold EArray.exportBuf
+  rcases hres : EArray.truncate a m with ⟨ok, a', m'⟩
+  rw [hres] at hf
+  cases ok
+  · exact hf
+  · exact ⟨hf.1.trans (ext_free _ _), hf.2⟩
+
+theorem ea_free_ext (a : EArray.EA) (m : Mem) : Ext m (EArray.free a m) :=
+  (ext_free _ _).trans (ext_free _ _)
+
+theorem ea_init_frame (n : Nat) (r : RecLen) (m : Mem) :
+    Ext m (EArray.init n r m).2 ∧ ∀ a, (EArray.init n r m).1 = some a → Capped m → a.alloc ≤ cap := by
+  unfold EArray.init
+  cases hr : (m.malloc EArray.structSize).1
+  · rw [pair_eta _ hr]; exact ⟨ext_malloc _ _, fun a h => by cases h⟩
+  · rw [pair_eta _ hr]
+    simp only
+    have hf := resizeRec_frame { size := 0, alloc := 0, buf := [] } n r (m.malloc EArray.structSize).2
+    rcases hres : EArray.resizeRec { size := 0, alloc := 0, buf := [] } n r (m.malloc EArray.structSize).2 with ⟨ok, a', m'⟩
+    rw [hres] at hf
+    cases ok
+    · exact ⟨(ext_malloc _ _).trans (hf.1.trans (ea_free_ext _ _)), fun a h => by cases h⟩
+    · refine ⟨(ext_malloc _ _).trans hf.1, fun a h hc => ?_⟩
+      cases h
+      exact hf.2 (hc.ext (ext_malloc _ _)) (Nat.zero_le _)
+
+theorem eq_init_frame (r : RecLen) (m : Mem) :
+    Ext m (EQueue.init r m).2 ∧ ∀ q, (EQueue.init r m).1 = some q → Capped m → q.ea.alloc ≤ cap := by
+  unfold EQueue.init
+  cases hr : (m.malloc EQueue.structSize).1
+  · rw [pair_eta _ hr]; exact ⟨ext_malloc _ _, fun a h => by cases h⟩
+  · rw [pair_eta _ hr]
+    simp only
+    have hf := ea_init_frame 0 r (m.malloc EQueue.structSize).2
+    rcases hres : EArray.init 0 r (m.malloc EQueue.structSize).2 with ⟨oa, m'⟩
+    rw [hres] at hf
+    cases oa
+    · exact ⟨(ext_malloc _ _).trans (hf.1.trans (ext_free _ _)), fun a h => by cases h⟩
+    · refine ⟨(ext_malloc _ _).trans hf.1, fun q h hc => ?_⟩
+      cases h
+      exact hf.2 _ rfl (hc.ext (ext_malloc _ _))
+
+theorem eq_add_frame (q : EQueue.EQ) (rec : List UInt8) (m : Mem) :
+    FrameA q.ea m (EQueue.add q rec m).2.1.ea (EQueue.add q rec m).2.2 := by
+  have hf := append_frame q.ea rec 1 q.reclen m
+  unfold EQueue.add
+  rcases hres : EArray.append q.ea rec 1 q.reclen m with ⟨st, a', m'⟩
+  rw [hres] at hf
+  cases st <;> exact hf
+
+theorem setRec_alloc {a a' : EArray.EA} {pos : Nat} {r : RecLen} {rec : List UInt8}
+    (h : EArray.setRec a pos r rec = some a') : a'.alloc = a.alloc := by
+  unfold EArray.setRec at h
+  split at h
+  · simp only [Option.map_eq_some_iff] at h
+    obtain ⟨b, _, rfl⟩ := h; rfl
+  · cases h
+
+theorem moveLoop_alloc (r : RecLen) (off : Nat) : ∀ (n i : Nat) (a a' : EArray.EA),
+    EQueue.moveLoop r off n i a = some a' → a'.alloc = a.alloc
+  | 0, _, a, a', h => by simp only [EQueue.moveLoop] at h; cases h; rfl
+  | n+1, i, a, a', h => by
+    simp only [EQueue.moveLoop] at h
+    split at h
+    · cases h
+    · split at h
+      · cases h
+      · rename_i a1 hset
+        rw [moveLoop_alloc r off n (i+1) a1 a' h, setRec_alloc hset]
+
+theorem eq_delete_frame (q : EQueue.EQ) (m : Mem) :
+    FrameA q.ea m (EQueue.delete q m).2.1.ea (EQueue.delete q m).2.2 := by
+  unfold EQueue.delete
+  split
+  · exact ⟨Ext.refl _, fun _ h => h⟩
+  · simp only
+    split
+    · split
+      · exact ⟨Ext.refl _, fun _ h => h⟩
+      · rename_i a hmv
+        have hf := shrink_frame a (q.offset + 1) q.reclen m
+        exact ⟨hf.1, fun hc h => hf.2 hc (by rw [moveLoop_alloc _ _ _ _ _ _ hmv]; exact h)⟩
+    · exact ⟨Ext.refl _, fun _ h => h⟩
+
+theorem eq_set_alloc {q q' : EQueue.EQ} {pos : Nat} {rec : List UInt8} (h : EQueue.set q pos rec = some q') :
+    q'.ea.alloc = q.ea.alloc := by
+  unfold EQueue.set at h
+  split at h
+  · cases h
+  · simp only [Option.map_eq_some_iff] at h
+    obtain ⟨a, ha, rfl⟩ := h
+    exact setRec_alloc ha
+
+theorem eq_free_ext (q : EQueue.EQ) (m : Mem) : Ext m (EQueue.free q m) :=
+  (ea_free_ext _ _).trans (ext_free _ _)
+
+theorem eq_step_frame (q : EQueue.EQ) (e : EqOp) (m : Mem) :
+    FrameA q.ea m (EQueue.step q e m).2.1.ea (EQueue.step q e m).2.2 := by
+  cases e with
+  | add rec => exact eq_add_frame q rec m
+  | delete => exact eq_delete_frame q m
+  | getlen => exact ⟨Ext.refl _, fun _ h => h⟩
+  | get pos => simp only [EQueue.step]; split <;> exact ⟨Ext.refl _, fun _ h => h⟩
+  | set pos rec =>
+    simp only [EQueue.step]
+    split
+    · rename_i q' hq; exact ⟨Ext.refl _, fun _ h => by rw [eq_set_alloc hq]; exact h⟩
+    · exact ⟨Ext.refl _, fun _ h => h⟩
+
+/-! sequential pointer map -/
+
+theorem sm_init_frame (m : Mem) :
+    Ext m (SeqMap.init m).2 ∧ ∀ x, (SeqMap.init m).1 = some x → Capped m → x.q.ea.alloc ≤ cap := by
+  unfold SeqMap.init
+  cases hr : (m.malloc SeqMap.structSize).1
+  · rw [pair_eta _ hr]; exact ⟨ext_malloc _ _, fun a h => by cases h⟩
+  · rw [pair_eta _ hr]
+    simp only
+    have hf := eq_init_frame SeqMap.ptrLen (m.malloc SeqMap.structSize).2
+    rcases hres : EQueue.init SeqMap.ptrLen (m.malloc SeqMap.structSize).2 with ⟨oa, m'⟩
+    rw [hres] at hf
+    cases oa
+    · exact ⟨(ext_malloc _ _).trans (hf.1.trans (ext_free _ _)), fun a h => by cases h⟩
+    · refine ⟨(ext_malloc _ _).trans hf.1, fun q h hc => ?_⟩
+      cases h
+      exact hf.2 _ rfl (hc.ext (ext_malloc _ _))
+
+theorem sm_add_frame (x : SeqMap.SM) (p : Nat) (m : Mem) :
+    FrameA x.q.ea m (SeqMap.add x p m).2.1.q.ea (SeqMap.add x p m).2.2 := by
+  have hf := eq_add_frame x.q (SeqMap.encPtr p) m
+  unfold SeqMap.add
+  rcases hres : EQueue.add x.q (SeqMap.encPtr p) m with ⟨st, q', m'⟩
+  rw [hres] at hf
+  cases st
+  · simp only; split <;> exact hf
+  · exact hf
+  · exact hf
+
+theorem trimLoop_frame : ∀ (fuel : Nat) (x : SeqMap.SM) (m : Mem),
+    FrameA x.q.ea m (SeqMap.trimLoop fuel x m).2.1.q.ea (SeqMap.trimLoop fuel x m).2.2 := by
+  intro fuel
+  induction fuel with
+  | zero =>
+    intro x m
+    unfold SeqMap.trimLoop
+    split
+    · exact ⟨Ext.refl _, fun _ h => h⟩
+    · split
+      · exact ⟨Ext.refl _, fun _ h => h⟩
+      · split <;> exact ⟨Ext.refl _, fun _ h => h⟩
+  | succ fuel ih =>
+    intro x m
+    unfold SeqMap.trimLoop
+    split
+    · exact ⟨Ext.refl _, fun _ h => h⟩
+    · split
+      · exact ⟨Ext.refl _, fun _ h => h⟩
+      · split
+        · exact ⟨Ext.refl _, fun _ h => h⟩
+        · simp only
+          have hf := eq_delete_frame x.q m
+          rcases hres : EQueue.delete x.q m with ⟨st, q', m'⟩
+          rw [hres] at hf
+          cases st
+          · simp only
+            have := ih { q := q', offset := x.offset + 1, len := x.len - 1 } m'
+            exact ⟨hf.1.trans this.1, fun hc h => this.2 (hc.ext hf.1) (hf.2 hc h)⟩
+          · exact hf
+          · exact hf
+
+theorem sm_delete_frame (x : SeqMap.SM) (i : Int) (m : Mem) :
+    FrameA x.q.ea m (SeqMap.delete x i m).2.1.q.ea (SeqMap.delete x i m).2.2 := by
+  unfold SeqMap.delete
+  split
+  · exact ⟨Ext.refl _, fun _ h => h⟩
+  · split
+    · exact ⟨Ext.refl _, fun _ h => h⟩
+    · split
+      · exact ⟨Ext.refl _, fun _ h => h⟩
+      · rename_i q hq
+        have := trimLoop_frame (x.len + 1) { x with q := q } m
+        exact ⟨this.1, fun hc h => this.2 hc (by show q.ea.alloc ≤ cap; rw [eq_set_alloc hq]; exact h)⟩
+
+theorem sm_free_ext (x : SeqMap.SM) (m : Mem) : Ext m (SeqMap.free x m) :=
+  (eq_free_ext _ _).trans (ext_free _ _)
+
+theorem sm_step_frame (x : SeqMap.SM) (e : SmOp) (m : Mem) :
+    FrameA x.q.ea m (SeqMap.step x e m).2.1.q.ea (SeqMap.step x e m).2.2 := by
+  cases e with
+  | add p =>
+    have hf := sm_add_frame x p m
+    simp only [SeqMap.step]
+    rcases hres : SeqMap.add x p m with ⟨r, x', m'⟩
+    rw [hres] at hf
+    cases r <;> exact hf
+  | get i => simp only [SeqMap.step]; split <;> exact ⟨Ext.refl _, fun _ h => h⟩
+  | delete i => exact sm_delete_frame x i m
+  | getmin => exact ⟨Ext.refl _, fun _ h => h⟩
+
+/-! object pool -/
+
+theorem foldl_free_ext (l : List Nat) (m : Mem) : Ext m (l.foldl (fun m _ => m.free false) m) := by
+  induction l generalizing m with
+  | nil => exact Ext.refl _
+  | cons x rest ih => exact (ext_free m false).trans (ih _)
+
+theorem mp_atexit_ext (p : MPool.MP) (m : Mem) : Ext m (MPool.atexit p m).2 := by
+  simp only [MPool.atexit]
+  split
+  · exact (foldl_free_ext _ _).trans (ext_free _ _)
+  · exact foldl_free_ext _ _
+
+theorem mp_step_ext (sz : Nat) (p : MPool.MP) (e : MpOp) (m : Mem) : Ext m (MPool.step sz p e m).2.2 := by
+  cases e with
+  | malloc =>
+    simp only [MPool.step, MPool.malloc]
+    split
+    · exact Ext.refl _
+    · cases hr : (m.malloc sz).1 <;> rw [pair_eta _ hr] <;> exact ext_malloc _ _
+  | free x =>
+    simp only [MPool.step, MPool.free]
+    split
+    · exact Ext.refl _
+    · split
+      · cases hr : (m.malloc ((p.allocsize * 2 * 8) % EArray.SZ)).1
+        · rw [pair_eta _ hr]; exact (ext_malloc _ _).trans (ext_free _ _)
+        · rw [pair_eta _ hr]; simp only; split
+          · exact (ext_malloc _ _).trans (ext_free _ _)
+          · exact ext_malloc _ _
+      · exact ext_free _ _
+
+theorem ea_step_frame (a : EArray.EA) (e : EaOp) (m : Mem) :
+    FrameA a m (EArray.step a e m).2.1 (EArray.step a e m).2.2 := by
+  cases e with
+  | resize n r fill =>
+    have hf := resizeRec_frame a n r m
+    simp only [EArray.step]
+    rcases hres : EArray.resizeRec a n r m with ⟨ok, a', m'⟩
+    rw [hres] at hf
+    cases ok
+    · exact hf
+    · simp only
+      cases hfl : EArray.fillFrom a' a.size fill
+      · exact hf
+      · rename_i a''
+        refine ⟨hf.1, fun hc h => ?_⟩
+        have : a''.alloc = a'.alloc := by
+          unfold EArray.fillFrom at hfl
+          split at hfl
+          · cases hfl; rfl
+          · split at hfl
+            · simp only [Option.map_eq_some_iff] at hfl
+              obtain ⟨b, _, rfl⟩ := hfl; rfl
+            · cases hfl
+        rw [this]; exact hf.2 hc h
+  | append data n r =>
+    have hf := append_frame a data n r m
+    simp only [EArray.step]
+    rcases hres : EArray.append a data n r m with ⟨st, a', m'⟩
+    rw [hres] at hf; exact hf
+  | shrink n r =>
+    have hf := shrink_frame a n r m
+    simp only [EArray.step]
+    rcases hres : EArray.shrink a n r m with ⟨a', m'⟩
+    rw [hres] at hf; exact hf
+  | truncate =>
+    have hf := truncate_frame a m
+    simp only [EArray.step]
+    rcases hres : EArray.truncate a m with ⟨ok, a', m'⟩
+    rw [hres] at hf
+    cases ok <;> exact hf
+  | get pos r => simp only [EArray.step]; split <;> exact ⟨Ext.refl _, fun _ h => h⟩
+  | set pos r rec =>
+    simp only [EArray.step]
+    split
+    · rename_i a' ha; exact ⟨Ext.refl _, fun _ h => by rw [setRec_alloc ha]; exact h⟩
+    · exact ⟨Ext.refl _, fun _ h => h⟩
+  | getsize r => exact ⟨Ext.refl _, fun _ h => h⟩
+  | exportdup r =>
+    have hf := exportdup_ext a r m
+    simp only [EArray.step]
+    rcases hres : EArray.exportdup a r m with ⟨st, out, m'⟩
+    rw [hres] at hf
+    exact ⟨hf, fun _ h => h⟩
+
 end Percival.Proofs.DsStep
